@@ -30,6 +30,10 @@ def main(tier, replay=None):
         S.liveness_check(sc.chk, sc.work, "N4W3S3", {"N": 4, "Workers": 3, "Steps": 3, "MaxPn": 12}, timeout=3000)
     S.sort_states(sc, "N4W2S3", {"N": 4, "Workers": 2, "Steps": 3, "MaxPn": 12})
     S.sort_states(sc, "N4W3S3", {"N": 4, "Workers": 3, "Steps": 3, "MaxPn": 12})
+    S.sort_cases(sc, 4, 2)
+    S.sort_cases(sc, 5, 2)       # five ensembles: the smallest size at which a displaced path and a heavier competitor coexist
+    if not q:
+        S.sort_cases(sc, 5, 3, timeout=3000)
     if not q:
         S.sort_states(sc, "N4W3S4", {"N": 4, "Workers": 3, "Steps": 4, "MaxPn": 14}, timeout=3000)
         S.sort_states(sc, "N5W3S3", {"N": 5, "Workers": 3, "Steps": 3, "MaxPn": 14}, timeout=3000)
